@@ -684,7 +684,7 @@ func vfC18RestartHeld(e *vfEnv, r *vfResult, idx int) { //nolint:cyclop
 			return
 		}
 		// answer the fresh cycle's queries (late answers to the cancelled cycle's queries go out as well)
-		for dl := time.Now().Add(5 * time.Second); time.Now().Before(dl); time.Sleep(50 * time.Microsecond) {
+		for dl := time.Now().Add(30 * time.Second); time.Now().Before(dl); time.Sleep(50 * time.Microsecond) {
 			for _, q := range srv.pump() {
 				_, _ = srv.reply(q, netip.MustParseAddrPort("198.51.100.9:6000"))
 			}
